@@ -296,6 +296,7 @@ impl Monitor for C02 {
         };
         v.extend(split_chunks("matrix", seed_offset(seed, "C02m", nm), nmat, nm, 200));
         v.extend(split_chunks("bait", seed_offset(seed, "C02b", BAIT_POOL), nbait, BAIT_POOL, 150));
+        v.extend(split_chunks("baitsplit", seed_offset(seed, "C02s", BAIT_POOL), nbait / 4, BAIT_POOL, 150));
         v.extend(split_chunks("rand", seed_offset(seed, "C02r", RAND_POOL), nrand, RAND_POOL, 150));
         v
     }
@@ -312,6 +313,18 @@ impl Monitor for C02 {
             "bait" => {
                 let p = bait_program(idx);
                 differential(kind, idx, &p, "C02b", false, None)
+            }
+            "baitsplit" => {
+                // the bait programs with their scalars in cartridge RAM: a cell has two addresses
+                // there (read port, write port), what the pass knows about one must not survive a
+                // store to the other
+                let mut p = bait_program(idx);
+                for v in p.vars.iter_mut().take(12) {
+                    if matches!(v.kind, VarKind::Scalar(_)) && v.name != "n" {
+                        v.mem = MemClass::Superchip;
+                    }
+                }
+                differential(kind, idx, &p, "C02s", false, None)
             }
             _ => {
                 let p = gen_program("C02", idx, &cfg_c01());
